@@ -85,7 +85,7 @@ def build_harness(build="release", feature="blst"):
 # --------------------------------------------------------------------------- TLC
 def tlc(module, cfg, name, workers=None, timeout=1800, env=None, extra=None, java_opts=None):
     """run TLC; returns dict(out, vectors, states, distinct, rc, wall, violated)"""
-    md = os.path.join(WORK, "md_" + name)
+    md = os.path.join(WORK, "md_%s_%d" % (name, os.getpid()))      # per process: concurrent checks share WORK
     shutil.rmtree(md, ignore_errors=True)
     os.makedirs(WORK, exist_ok=True)
     cmd = ["tlc", "-workers", str(workers or TLC_WORKERS), "-metadir", md, "-cleanup", "-noGenerateSpecTE",
@@ -135,8 +135,10 @@ def export_tables():
     tables = json.loads(json.loads(m.group(1)))
     os.makedirs(WORK, exist_ok=True)
     p = os.path.join(WORK, "tables.json")
-    with open(p, "w") as f:
+    tmp = p + ".%d" % os.getpid()
+    with open(tmp, "w") as f:
         json.dump(tables, f)
+    os.replace(tmp, p)
     return p, r
 
 
@@ -204,7 +206,7 @@ TRACE_JAVA = "-Xss1g -Dtlc2.tool.queue.IStateQueue=StateDeque"
 
 def validate_trace(trace_module, trace_path, name, timeout=3000):
     """TLC on the Trace spec; returns (accepted, rejected_at, event_json, wall, states)"""
-    md = os.path.join(WORK, "md_tr_" + name)
+    md = os.path.join(WORK, "md_tr_%s_%d" % (name, os.getpid()))
     shutil.rmtree(md, ignore_errors=True)
     cmd = ["tlc", "-workers", "1", "-metadir", md, "-cleanup", "-noGenerateSpecTE", "-config",
            os.path.join(SPEC, trace_module + ".cfg"), os.path.join(SPEC, trace_module + ".tla")]
